@@ -2,6 +2,7 @@ package main
 
 import (
 	"go/token"
+	"go/types"
 	"strings"
 
 	"golang.org/x/tools/go/ssa"
@@ -24,6 +25,13 @@ func loadKey(v ssa.Value) (key, field string, ok bool) {
 		if fa, isFA := x.X.(*ssa.FieldAddr); isFA {
 			f := fieldRefOfAddr(fa)
 			return "load|" + f + "|" + baseKey(fa.X), f, true
+		}
+		// element of a slice: two reads of s[i] with nothing in between that could write an element (any store through an
+		// index address, any call) are one value — `if s[i] == nil { continue }; s[i].M()`
+		if ia, isIA := x.X.(*ssa.IndexAddr); isIA {
+			if _, isSlice := ia.X.Type().Underlying().(*types.Slice); isSlice {
+				return "elem|" + baseKey(ia.X) + "|" + baseKey(ia.Index), "", true
+			}
 		}
 		// local variable cells (address-taken or captured locals): eligible when every store to the
 		// cell is in the function that loads it
@@ -160,6 +168,15 @@ func (s availState) killAll() {
 	}
 }
 
+// killElems: slice elements are invalidated by any indexed store and any call.
+func (s availState) killElems() {
+	for k := range s {
+		if strings.HasPrefix(k, "elem|") {
+			delete(s, k)
+		}
+	}
+}
+
 func (s availState) killEverything() {
 	for k := range s {
 		delete(s, k)
@@ -197,6 +214,11 @@ func computeLoadEquiv(p *Prog, sums *Summaries, lf *LockFacts, fn *ssa.Function)
 				if fa, ok := x.Addr.(*ssa.FieldAddr); ok {
 					st.killField(fieldRefOfAddr(fa))
 				}
+				switch x.Addr.(type) {
+				case *ssa.FieldAddr, *ssa.Alloc, *ssa.FreeVar, *ssa.Global:
+				default:
+					st.killElems() // a store through an index address or a computed pointer
+				}
 				switch a := x.Addr.(type) {
 				case *ssa.Alloc:
 					// `return picked, nil` with named results stores the cell's own current value back: not a change
@@ -222,6 +244,9 @@ func computeLoadEquiv(p *Prog, sums *Summaries, lf *LockFacts, fn *ssa.Function)
 				}
 			case *ssa.Call, *ssa.Go, *ssa.Defer:
 				cc := callCommon(ins)
+				if b := calleeOf(cc).Builtin; b != "len" && b != "cap" {
+					st.killElems() // any callee may hold the slice
+				}
 				if _, ok := lf.lockOpOf(cc); ok {
 					if _, isDefer := ins.(*ssa.Defer); !isDefer {
 						st.killAll()
